@@ -6,7 +6,8 @@ import subprocess
 
 from . import common as C
 
-FILES = ["root", "imp", "sub", "subimp", "nested"]
+# deep: a module declared inside the submodule, in a directory of its own (proj/mods/deep/mod.just)
+FILES = ["root", "imp", "sub", "subimp", "nested", "deep"]
 SETTINGS = [None, "rel", "abs"]
 # jfrel / jfwdrel: the same with RELATIVE paths written with `./`, `dir/./` and a `name/..` detour (cleaned lexically)
 FLAGS = ["none", "jf", "jfwd", "jfrel", "jfwdrel"]
@@ -17,7 +18,9 @@ ATTRS = [None, "rel", "abs"]
 def space(tier, seed):
     allc = []
     for f, sr, ss, fl, inv, at, nocd, script, reach in itertools.product(
-            FILES, SETTINGS, SETTINGS, FLAGS, INVS, ATTRS, [False, True], [False, True, "attr"], ["direct", "dep", "alias"]):
+            FILES, SETTINGS, SETTINGS, FLAGS, INVS, ATTRS, [False, True], [False, True, "attr"], ["direct", "dep", "alias", "alias-in-module"]):
+        if reach == "alias-in-module" and f not in ("sub", "subimp", "deep"):
+            continue  # an alias declared inside the submodule: of its own recipes and of its nested module's
         if inv == "elsewhere" and fl == "none":
             continue  # no justfile would be found
         if nocd and at is not None:
@@ -35,7 +38,7 @@ def space(tier, seed):
 def layout(d, c):
     """Write the files for configuration c under d; returns dict with paths and invocation."""
     proj = os.path.join(d, "proj")
-    dirs = ["proj/imp", "proj/mods/inner", "proj/x/y", "proj/wd/ad", "proj/ad", "proj/mods/wd/ad", "proj/mods/ad", "proj/imp/ad",
+    dirs = ["proj/mods/deep/ad", "proj/imp", "proj/mods/inner", "proj/x/y", "proj/wd/ad", "proj/ad", "proj/mods/wd/ad", "proj/mods/ad", "proj/imp/ad",
             "abs1/ad", "abs2", "other/ad", "other/wd/ad", "elsewhere"]
     for x in dirs:
         os.makedirs(os.path.join(d, x), exist_ok=True)
@@ -68,18 +71,24 @@ def layout(d, c):
     texts = {
         "root": shell + unstable + setting_text(c["set_root"]) + "import 'imp/i.just'\nmod sub 'mods/sub.just'\nbt := `[Bmod-root]`\n\n",
         "imp": "mod nested\n\n",
-        "sub": shell + unstable + setting_text(c["set_sub"]) + "import 'inner/ii.just'\nbtsub := `[Bmod-sub]`\n\n",
+        "sub": shell + unstable + setting_text(c["set_sub"]) + "import 'inner/ii.just'\nmod deep\nbtsub := `[Bmod-sub]`\n\n",
+        "deep": shell + unstable + "\n",
         "subimp": "\n",
         "nested": shell + unstable + "\n",
     }
     for f in FILES:
         texts[f] += target if f == c["file"] else dummy % f
     paths = {"root": "proj/justfile", "imp": "proj/imp/i.just", "sub": "proj/mods/sub.just", "subimp": "proj/mods/inner/ii.just",
-             "nested": "proj/imp/nested.just"}
+             "nested": "proj/imp/nested.just", "deep": "proj/mods/deep/mod.just"}
     for f, rel in paths.items():
         open(os.path.join(d, rel), "w").write(texts[f])
     name = "top" if c["reach"] == "dep" else "t"
-    prefix = {"root": "", "imp": "", "sub": "sub::", "subimp": "sub::", "nested": "nested::"}[c["file"]]
+    prefix = {"root": "", "imp": "", "sub": "sub::", "subimp": "sub::", "nested": "nested::", "deep": "sub::deep::"}[c["file"]]
+    if c["reach"] == "alias-in-module":
+        inner = "deep::t" if c["file"] == "deep" else "t"
+        open(os.path.join(d, paths["sub"]), "a").write("\nalias ald := %s\n" % inner)
+        texts["sub"] += "\nalias ald := %s\n" % inner
+        prefix, name = "sub::", "ald"
     if c["reach"] == "alias":
         # an alias declared in the root justfile, possibly of a recipe in a submodule: it runs where the recipe runs
         open(os.path.join(d, paths["root"]), "a").write("\nalias al := %st\n" % prefix)
@@ -115,8 +124,9 @@ def model_ctx(d, c):
     chain = {"root": [], "imp": [{"import": {"fileDir": comps(proj + "/imp")}}],
              "sub": [{"module": {"fileDir": comps(proj + "/mods")}}],
              "subimp": [{"module": {"fileDir": comps(proj + "/mods")}}, {"import": {"fileDir": comps(proj + "/mods/inner")}}],
-             "nested": [{"import": {"fileDir": comps(proj + "/imp")}}, {"module": {"fileDir": comps(proj + "/imp")}}]}[c["file"]]
-    which = {"root": "set_root", "imp": "set_root", "sub": "set_sub", "subimp": "set_sub", "nested": None}[c["file"]]
+             "nested": [{"import": {"fileDir": comps(proj + "/imp")}}, {"module": {"fileDir": comps(proj + "/imp")}}],
+             "deep": [{"module": {"fileDir": comps(proj + "/mods")}}, {"module": {"fileDir": comps(proj + "/mods/deep")}}]}[c["file"]]
+    which = {"root": "set_root", "imp": "set_root", "sub": "set_sub", "subimp": "set_sub", "nested": None, "deep": None}[c["file"]]
 
     def rel(s, name, absdir):
         if s == "rel":
@@ -137,9 +147,9 @@ def spec(d, c):
     """The statement written directly."""
     proj = os.path.join(d, "proj")
     inv = os.path.join(d, c["inv"])
-    moddir = {"root": None, "imp": None, "sub": proj + "/mods", "subimp": proj + "/mods", "nested": proj + "/imp"}[c["file"]]
+    moddir = {"root": None, "imp": None, "sub": proj + "/mods", "subimp": proj + "/mods", "nested": proj + "/imp", "deep": proj + "/mods/deep"}[c["file"]]
     base = moddir if moddir else (os.path.join(d, "other") if c["flags"] in ("jfwd", "jfwdrel") else proj)
-    setting = {"root": c["set_root"], "imp": c["set_root"], "sub": c["set_sub"], "subimp": c["set_sub"], "nested": None}[c["file"]]
+    setting = {"root": c["set_root"], "imp": c["set_root"], "sub": c["set_sub"], "subimp": c["set_sub"], "nested": None, "deep": None}[c["file"]]
     if setting == "rel":
         base = base + "/wd"
     elif setting == "abs":
@@ -153,7 +163,8 @@ def spec(d, c):
         cwd = os.path.join(d, "abs2")
     else:
         cwd = base
-    srcdir = {"root": proj, "imp": proj + "/imp", "sub": proj + "/mods", "subimp": proj + "/mods/inner", "nested": proj + "/imp"}[c["file"]]
+    srcdir = {"root": proj, "imp": proj + "/imp", "sub": proj + "/mods", "subimp": proj + "/mods/inner", "nested": proj + "/imp",
+              "deep": proj + "/mods/deep"}[c["file"]]
     rootbase = os.path.join(d, "other") if c["flags"] in ("jfwd", "jfwdrel") else proj
     if c["set_root"] == "rel":
         rootbase += "/wd"
@@ -249,7 +260,7 @@ def run(report):
     report.coverage.update({
         "evaluations": len(cfgs),
         "distinct_nontrivial": len(distinct),
-        "rule": "product of {file containing the recipe: root, import of root, submodule, import of the submodule, module declared in an imported file} x `set working-directory` in root and submodule {none, relative, absolute} x {no flags, --justfile, --justfile + --working-directory, the same two with relative paths in three spellings} x invocation directory {justfile dir, nested subdir, module dir, unrelated dir} x attribute {none, relative, absolute} x [no-cd] x {linewise, shebang, [script]} x {direct, via dependency}; %s; distinct = distinct (configuration, observed directories)" % ("complete" if tier == "thorough" else "random sample of the space (size in stats)"),
+        "rule": "product of {file containing the recipe: root, import of root, submodule, import of the submodule, module declared in an imported file, module nested in the submodule} x `set working-directory` in root and submodule {none, relative, absolute} x {no flags, --justfile, --justfile + --working-directory, the same two with relative paths in three spellings} x invocation directory {justfile dir, nested subdir, module dir, unrelated dir} x attribute {none, relative, absolute} x [no-cd] x {linewise, shebang, [script]} x {direct, via dependency, via an alias of the root, via an alias declared inside the submodule}; %s; distinct = distinct (configuration, observed directories)" % ("complete" if tier == "thorough" else "random sample of the space (size in stats)"),
         "samples": samples,
         "exhaustive": tier == "thorough",
         "traces_validated_against_impl": len(cfgs),
